@@ -48,7 +48,7 @@ def run(ctx, rep):
         nested_under_lookup = any(any(fr.get('k') == 'if' and isinstance(fr['c'], dict) and fr['c'].get('k') == 'iflet' and 'types.get' in vt.show(fr['c']['scrut']) for fr in l['guard']) for l in ploops) or not ploops
         rep.check(not nested_under_lookup, 'G1', 'get_dependencies_from_type:RustType::Generic:parameters-unconditional', 'arguments visited regardless of the base type',
                   "generic arguments are only inspected when the generic type itself is a typeshared item of this file (`if let Some(..) = types.get(id)` encloses the loop): `Foreign<Item>` / a type-mapped generic yields no edge to Item", {'file': f['file'], 'line': g_arm['line']})
-    g2_onwards(ctx, rep)
+    rep.section(g2_onwards, ctx, rep)
 
 
 def delegated_traversal(ctx, rep, f):
